@@ -39,6 +39,7 @@ type fileRewriter struct {
 	keep   map[string]bool // package idents whose import must stay used
 	opts   opts
 	errs   []string
+	skip   map[ast.Node]bool
 }
 
 type opts struct{ time, yield, stdio, dailysink bool }
@@ -103,8 +104,13 @@ func (r *fileRewriter) rewrite() {
 	recv2 := map[*ast.UnaryExpr]bool{}
 	ast.Inspect(r.file, func(n ast.Node) bool {
 		switch v := n.(type) {
+		case *ast.LabeledStmt:
+			if _, ok := v.Stmt.(*ast.SelectStmt); ok {
+				r.errs = append(r.errs, fmt.Sprintf("unsupported construct: labelled select at %s", r.posLabel(v.Pos())))
+			}
 		case *ast.SelectStmt:
-			r.errs = append(r.errs, fmt.Sprintf("unsupported construct: select at %s", r.posLabel(v.Pos())))
+			r.usesMC = true
+			r.rewriteSelect(v)
 		case *ast.AssignStmt:
 			if len(v.Lhs) == 2 && len(v.Rhs) == 1 {
 				if u, ok := v.Rhs[0].(*ast.UnaryExpr); ok && u.Op == token.ARROW {
@@ -121,6 +127,9 @@ func (r *fileRewriter) rewrite() {
 		return true
 	})
 	ast.Inspect(r.file, func(n ast.Node) bool {
+		if n != nil && r.skip[n] {
+			return false
+		}
 		switch v := n.(type) {
 		case *ast.SendStmt:
 			r.usesMC = true
@@ -151,14 +160,14 @@ func (r *fileRewriter) rewrite() {
 			}
 		case *ast.SelectorExpr:
 			if r.opts.time {
-				if name, ok := isPkgSel(v, "time", "Now", "Sleep", "Since"); ok {
+				if name, ok := isPkgSel(v, "time", "Now", "Sleep", "Since", "After"); ok {
 					r.usesMC = true
 					r.keep["time.Now"] = true
 					r.replace(v.Pos(), v.End(), "mcrt."+name)
 				}
 			}
 			if r.opts.time {
-				if name, ok := isPkgSel(v, "time", "After", "Tick", "NewTimer", "NewTicker", "AfterFunc"); ok {
+				if name, ok := isPkgSel(v, "time", "Tick", "NewTimer", "NewTicker", "AfterFunc"); ok {
 					r.errs = append(r.errs, fmt.Sprintf("unsupported construct: time.%s at %s (real timers cannot be owned by the scheduler)", name, r.posLabel(v.Pos())))
 				}
 			}
@@ -200,6 +209,113 @@ func (r *fileRewriter) rewrite() {
 		}
 		return true
 	})
+}
+
+// exprText returns the source of an expression that must not itself contain a
+// construct this tool rewrites; virtual-time substitutions are applied to it.
+func (r *fileRewriter) exprText(e ast.Expr, what string) (string, bool) {
+	if containsRewrite(e) {
+		r.errs = append(r.errs, fmt.Sprintf("unsupported construct: channel operation inside %s at %s", what, r.posLabel(e.Pos())))
+		return "", false
+	}
+	t := r.text(e)
+	if r.opts.time {
+		for _, f := range []string{"After", "Now", "Since", "Sleep"} {
+			if strings.Contains(t, "time."+f+"(") {
+				t = strings.ReplaceAll(t, "time."+f+"(", "mcrt."+f+"(")
+				r.keep["time.Now"] = true
+			}
+		}
+	}
+	return t, true
+}
+
+// rewriteSelect turns a select statement into a mcrt.Sel construction followed
+// by a switch on the chosen case; the case bodies stay where they are.
+func (r *fileRewriter) rewriteSelect(sel *ast.SelectStmt) {
+	var pro strings.Builder
+	pro.WriteString("{ _mc_sel := mcrt.NewSelect(); ")
+	type hdr struct {
+		cc   *ast.CommClause
+		text string
+	}
+	var hdrs []hdr
+	idx := 0
+	for _, st := range sel.Body.List {
+		cc := st.(*ast.CommClause)
+		if cc.Comm == nil {
+			pro.WriteString("_mc_sel.Default(); ")
+			hdrs = append(hdrs, hdr{cc, "case -1:"})
+			continue
+		}
+		r.skip[cc.Comm] = true
+		name := fmt.Sprintf("_mc_c%d", idx)
+		head := fmt.Sprintf("case %d:", idx)
+		switch c := cc.Comm.(type) {
+		case *ast.SendStmt:
+			ch, ok1 := r.exprText(c.Chan, "select case")
+			val, ok2 := r.exprText(c.Value, "select case")
+			if !ok1 || !ok2 {
+				return
+			}
+			pro.WriteString(fmt.Sprintf("mcrt.SelSend(_mc_sel, %s, %s); ", ch, val))
+		case *ast.ExprStmt:
+			u, ok := c.X.(*ast.UnaryExpr)
+			if !ok || u.Op != token.ARROW {
+				r.errs = append(r.errs, fmt.Sprintf("unsupported construct: select case at %s", r.posLabel(cc.Pos())))
+				return
+			}
+			ch, ok1 := r.exprText(u.X, "select case")
+			if !ok1 {
+				return
+			}
+			pro.WriteString(fmt.Sprintf("%s := mcrt.SelRecv(_mc_sel, %s); _ = %s; ", name, ch, name))
+		case *ast.AssignStmt:
+			u, ok := c.Rhs[0].(*ast.UnaryExpr)
+			if len(c.Rhs) != 1 || !ok || u.Op != token.ARROW {
+				r.errs = append(r.errs, fmt.Sprintf("unsupported construct: select case at %s", r.posLabel(cc.Pos())))
+				return
+			}
+			ch, ok1 := r.exprText(u.X, "select case")
+			if !ok1 {
+				return
+			}
+			pro.WriteString(fmt.Sprintf("%s := mcrt.SelRecv(_mc_sel, %s); ", name, ch))
+			var lhs []string
+			for _, l := range c.Lhs {
+				lhs = append(lhs, r.text(l))
+			}
+			rhs := name + ".Val"
+			if len(lhs) == 2 {
+				rhs += ", " + name + ".Ok"
+			}
+			head += " " + strings.Join(lhs, ", ") + " " + c.Tok.String() + " " + rhs + "; "
+			if c.Tok == token.DEFINE {
+				for _, l := range lhs {
+					if l != "_" {
+						head += "_ = " + l + "; "
+					}
+				}
+			}
+		default:
+			r.errs = append(r.errs, fmt.Sprintf("unsupported construct: select case at %s", r.posLabel(cc.Pos())))
+			return
+		}
+		hdrs = append(hdrs, hdr{cc, head})
+		idx++
+	}
+	pro.WriteString("switch _mc_sel.Do() {")
+	r.replace(sel.Select, sel.Body.Lbrace+1, pro.String())
+	for i, h := range hdrs {
+		text := h.text
+		if i == len(hdrs)-1 {
+			// the last clause becomes the switch's default so that a select that
+			// ends a function is still a terminating statement
+			text = "default:" + text[strings.Index(text, ":")+1:]
+		}
+		r.replace(h.cc.Case, h.cc.Colon+1, text)
+	}
+	r.replace(sel.Body.Rbrace, sel.Body.Rbrace+1, "} }")
 }
 
 func (r *fileRewriter) rewriteGo(g *ast.GoStmt) {
@@ -342,7 +458,7 @@ func main() {
 				fmt.Fprintf(os.Stderr, "instr: cannot parse %s: %v\n", path, err)
 				os.Exit(2)
 			}
-			r := &fileRewriter{fset: fset, src: src, file: f, rel: filepath.Join(pk, name), keep: map[string]bool{},
+			r := &fileRewriter{fset: fset, src: src, file: f, rel: filepath.Join(pk, name), keep: map[string]bool{}, skip: map[ast.Node]bool{},
 				opts: opts{time: tm[pk], yield: ym[pk], stdio: sm[pk], dailysink: dm[pk]}}
 			r.rewrite()
 			if len(r.errs) > 0 {
